@@ -70,6 +70,21 @@ func genMsgs(t *rapid.T) []Msg {
 		case k == 1 && inCycle:
 			s = append(s, Msg{Kind: "end"})
 			inCycle = false
+		case k == 3:
+			// a stored name that textually extends another one, then a delete of the shorter one
+			// (templates: 0/1 plain/descr, descr-long; 8/9 plain/l1/descr, descr-long; 19/22 state/oper, oper-reason; 23 state/nbr/v)
+			type pair struct{ long, short vlib.LeafSel; level int }
+			pairs := []pair{
+				{vlib.LeafSel{T: 1}, vlib.LeafSel{T: 0}, 0},
+				{vlib.LeafSel{T: 9, K: []int{0}}, vlib.LeafSel{T: 8, K: []int{0}}, 0},
+				{vlib.LeafSel{T: 8, K: []int{1}}, vlib.LeafSel{T: 8, K: []int{0}}, 1},
+				{vlib.LeafSel{T: 22}, vlib.LeafSel{T: 19}, 0},
+				{vlib.LeafSel{T: 23, K: []int{1}}, vlib.LeafSel{T: 23, K: []int{0}}, 1},
+				{vlib.LeafSel{T: 23, K: []int{2}}, vlib.LeafSel{T: 23, K: []int{0}}, 1},
+			}
+			p := pairs[rapid.IntRange(0, len(pairs)-1).Draw(t, "prefix-pair")]
+			s = append(s, Msg{Kind: "notif", Updates: []UpdSel{{Leaf: p.long, Form: "typed"}, {Leaf: p.short, Form: "typed"}}})
+			s = append(s, Msg{Kind: "notif", Deletes: []DelSel{{Leaf: p.short, Level: p.level}}})
 		case k == 2:
 			// one notification carrying the same leaf-list under several list entries, elements sent as keys
 			m := Msg{Kind: "notif"}
